@@ -78,7 +78,10 @@ def transform_to_spatial_orbitals(expr: Expr, target_idx: str,
                                    " because the index with alpha spin is "
                                    f"already used in the term: {term}.")
             sub[old] = new
-        restricted_expr += term.sympy.subs(order_substitutions(sub))
+        # substitute all indices simultaneously: replacing the indices one
+        # after another can create a delta between an alpha and a beta index,
+        # which evaluates to 0.
+        restricted_expr += term.sympy.xreplace(sub)
     return restricted_expr
 
 
